@@ -26,10 +26,14 @@ func (r *runner) allSpecs(tier string) []*spec {
 	}
 	tq := append(append([]string{}, corpusTraceQL...), hostileTraceQL...)
 	for i, q := range tq {
+		hostile := i >= len(corpusTraceQL)
 		specs = append(specs, traceSpec(q, 20, 0))
-		specs = append(specs, traceSpec(q, 20, 25_000_000))
-		ps := tracePortionSpec(q)
-		specs = append(specs, ps)
+		if tier == "thorough" || hostile || i%2 == 0 {
+			specs = append(specs, traceSpec(q, 20, 25_000_000))
+		}
+		if tier == "thorough" || hostile || i%2 == 1 {
+			specs = append(specs, tracePortionSpec(q))
+		}
 		if tier == "thorough" || i%4 == 0 {
 			specs = append(specs, traceSpec(q, 0, 0), tagsSpec(q))
 			for _, key := range []string{".a", "span.x", "resource.a", "name"} {
